@@ -136,7 +136,7 @@ def run(prog, tier, res):
         res.violate(R3, FINDV, "two-track-filter", "beamline clusters are not filtered by `cluster.len() > 1` before a primary vertex is chosen", vb.where())
     tab = accept.ret_table(prog, FINDV)
     vals = [v for a, v in tab]
-    if len(vals) == 1 and vals[0].startswith("VertexingResult{") and ",Vec::<T>::new(),arg1}" in vals[0]:
+    if vals and all(v.startswith("VertexingResult{") and v.endswith(",Vec::<T>::new(),arg1}") for v in vals) and len(set(vals)) == 1:
         res.hit(R3)
     else:
         res.violate(R3, FINDV, "result", "VertexingResult is not {primary: vertex, secondaries: Vec::new(), remainder: the input vector}", vb.where())
